@@ -408,7 +408,32 @@ pub enum RogueExec {
     Poison {},
 }
 
-fn rogue_instantiate(_d: DepsMut, _e: Env, _i: MessageInfo, _m: Empty) -> StdResult<Response> {
+#[derive(Serialize, Deserialize, Clone, Debug, PartialEq, JsonSchema)]
+pub struct RogueInit {
+    /// the real factory: the rogue answers factory-style queries by asking it (a transparent
+    /// proxy), so it can pose as "a factory that lists this pair" toward anybody who asks it
+    pub factory: Option<String>,
+}
+
+#[derive(Serialize, Deserialize, Clone, Debug, PartialEq, JsonSchema)]
+#[serde(rename_all = "snake_case")]
+pub enum RogueQuery {
+    // cw20-looking queries: answered with lies
+    Balance { address: String },
+    TokenInfo {},
+    // factory-looking queries: proxied to the real factory
+    Config {},
+    Pair { asset_infos: [haloswap::asset::AssetInfo; 2] },
+    Pairs { start_after: Option<[haloswap::asset::AssetInfo; 2]>, limit: Option<u32> },
+    NativeTokenDecimals { denom: String },
+}
+
+const ROGUE_FACTORY: cw_storage_plus::Item<String> = cw_storage_plus::Item::new("rogue_factory");
+
+fn rogue_instantiate(d: DepsMut, _e: Env, _i: MessageInfo, m: RogueInit) -> StdResult<Response> {
+    if let Some(f) = m.factory {
+        ROGUE_FACTORY.save(d.storage, &f)?;
+    }
     Ok(Response::new())
 }
 fn rogue_execute(_d: DepsMut, _e: Env, _i: MessageInfo, m: RogueExec) -> StdResult<Response> {
@@ -422,18 +447,33 @@ fn rogue_execute(_d: DepsMut, _e: Env, _i: MessageInfo, m: RogueExec) -> StdResu
         RogueExec::Poison {} => Err(StdError::generic_err("poison")),
     }
 }
-fn rogue_query(_d: Deps, _e: Env, m: cw20::Cw20QueryMsg) -> StdResult<Binary> {
+fn rogue_query(d: Deps, _e: Env, m: RogueQuery) -> StdResult<Binary> {
+    let proxy = |q: haloswap::factory::QueryMsg| -> StdResult<Binary> {
+        let f = ROGUE_FACTORY.load(d.storage)?;
+        let raw = cosmwasm_std::to_vec(&cosmwasm_std::QueryRequest::<Empty>::Wasm(WasmQuery::Smart {
+            contract_addr: f,
+            msg: to_binary(&q)?,
+        }))?;
+        match d.querier.raw_query(&raw) {
+            cosmwasm_std::SystemResult::Ok(cosmwasm_std::ContractResult::Ok(b)) => Ok(b),
+            cosmwasm_std::SystemResult::Ok(cosmwasm_std::ContractResult::Err(e)) => Err(StdError::generic_err(e)),
+            cosmwasm_std::SystemResult::Err(e) => Err(StdError::generic_err(e.to_string())),
+        }
+    };
     match m {
-        cw20::Cw20QueryMsg::Balance { .. } => to_binary(&cw20::BalanceResponse {
+        RogueQuery::Balance { .. } => to_binary(&cw20::BalanceResponse {
             balance: Uint128::new(1u128 << 100),
         }),
-        cw20::Cw20QueryMsg::TokenInfo {} => to_binary(&cw20::TokenInfoResponse {
+        RogueQuery::TokenInfo {} => to_binary(&cw20::TokenInfoResponse {
             name: "rogue".into(),
             symbol: "RGE".into(),
             decimals: 6,
             total_supply: Uint128::new(1u128 << 100),
         }),
-        _ => Err(StdError::generic_err("rogue: unsupported query")),
+        RogueQuery::Config {} => proxy(haloswap::factory::QueryMsg::Config {}),
+        RogueQuery::Pair { asset_infos } => proxy(haloswap::factory::QueryMsg::Pair { asset_infos }),
+        RogueQuery::Pairs { start_after, limit } => proxy(haloswap::factory::QueryMsg::Pairs { start_after, limit }),
+        RogueQuery::NativeTokenDecimals { denom } => proxy(haloswap::factory::QueryMsg::NativeTokenDecimals { denom }),
     }
 }
 
